@@ -74,7 +74,47 @@ Fixpoint dedup (l : list string) : list string :=
   | x :: r => if existsb (String.eqb x) r then dedup r else x :: dedup r
   end.
 
-(* LF-separated, de-duplicated reason names; empty = the model predicts a fixed point *)
+(* ---------- trailing space: a stored trailing-space mark that the next Write overrides ----------
+   Walks a tree the way writeNodes does.  In indent mode (block = true) writeNodes replaces the stored trailing space of a
+   node by a line break when the node is last, is followed by a block node, or is br/hr.  Evaluated on [reparse f]
+   (whose stored marks are what the first pass printed) it says that the second pass prints a line break where the first
+   printed a space or nothing: this happens when a Whitespace node separated the node from the block/end of list in f
+   (the parser never builds that after a trailer), or when the next sibling only became a block through its reparsed
+   IndentChildren flag (then that sibling's own reason is named first). *)
+Definition overridden (indent : bool) (c : node) (r : list node) : bool :=
+  indent && ((match r with x :: _ => is_block_node x | [] => false end) || (match r with [] => true | _ => false end) || always_break c)
+  && match trail_of c with Some SpNone | Some SpHoriz => true | _ => false end.
+
+Fixpoint trail_reasons (fuel : nat) (n : node) {struct fuel} : list string :=
+  match fuel with O => [] | S f =>
+  let tl := fix tl (indent : bool) (l : list node) : list string :=
+    match l with
+    | [] => []
+    | c :: r =>
+        if is_ws c then tl indent r else
+        (if overridden indent c r then ["TrailingSpaceRewritten"%string] else []) ++ trail_reasons f c ++ tl indent r
+    end in
+  match n with
+  | NElem _ _ _ ch ic _ => tl ic ch
+  | NIf _ th elifs el => tl true th ++ flat_map (fun '(_, cb) => tl true cb) elifs ++ tl true el
+  | NSwitch _ cs => flat_map (fun '(_, cb) => tl true cb) cs
+  | NFor _ b => tl true b
+  | NCall _ _ ch => tl true ch
+  | _ => []
+  end end.
+
+Fixpoint trail_reasons_top (l : list node) : list string :=
+  match l with
+  | [] => []
+  | c :: r =>
+      if is_ws c then trail_reasons_top r else
+      (if overridden true c r then ["TrailingSpaceRewritten"%string] else []) ++ trail_reasons 200 c ++ trail_reasons_top r
+  end.
+Definition fnode_trail_reasons (n : fnode) : list string := match n with FTempl _ ch => trail_reasons_top ch | _ => [] end.
+
+(* LF-separated, de-duplicated reason names; empty = the model predicts a fixed point (theorem C09_no_reason_stable).
+   The flag reasons come first (so the first name is the shape key), then the trailing-space reason. *)
 Definition unstable_reasons (f : file) : bytes :=
-  let rs := dedup (flat_map (fun p => fnode_reasons (fst p) (snd p)) (combine (f_nodes f) (f_nodes (reparse f)))) in
+  let rs := dedup (flat_map (fun p => fnode_reasons (fst p) (snd p)) (combine (f_nodes f) (f_nodes (reparse f))))
+            ++ dedup (flat_map fnode_trail_reasons (f_nodes (reparse f))) in
   flat_map (fun s => bs s ++ [x0a]) rs.
